@@ -65,7 +65,10 @@ def run(res, f, tier):
         else:
             discharged += 1
     res.floor("None cells", obligations, 276)
+    import rewrite
+    rw_cov = rewrite.apply(res, f, "C04")
     res.coverage = {
+        "tree_rewrites": rw_cov,
         "obligations": obligations,
         "discharged": discharged,
         "checker_cmd": "python3 rules/check.py C04",
